@@ -205,3 +205,67 @@ pub fn sub_ascii_concrete_needle<const H: usize, const ID: u8, const K: u8>() {
     kani::cover!(r.is_some());
     std::mem::forget(m);
 }
+
+// ----------------------------------------------------------------------------------------------
+// substring_match_ascii_with_prefilter, the callee of the three ignore_case arms, against its own
+// contract (no memchr / memmem: the candidate iterator is built from the precondition).
+//   requires (from the three call sites): ignore_case; 1 <= PL <= N <= H; the iterator yields, in
+//     increasing order, exactly the positions i <= H-N at which the first PL needle characters occur
+//     in the folded haystack (Memchr2(c, c-32), Memchr(c) and find_overlapping(prefix) all do)
+//   ensures: score 0 <=> no occurrence; otherwise the position is the leftmost occurrence whose
+//     first character earns the highest bonus and the score is 16 + 2*bonus of that character
+// ----------------------------------------------------------------------------------------------
+struct Cands<const H: usize> {
+    ok: [bool; H],
+    pos: usize,
+}
+
+impl<const H: usize> Iterator for Cands<H> {
+    type Item = usize;
+    fn next(&mut self) -> Option<usize> {
+        while self.pos < H {
+            let p = self.pos;
+            self.pos += 1;
+            if self.ok[p] {
+                return Some(p);
+            }
+        }
+        None
+    }
+}
+
+pub fn sub_ascii_with_prefilter<const H: usize, const N: usize, const PL: usize, const K: u8>() {
+    let hay: [u8; H] = kani::any();
+    let needle: [u8; N] = kani::any();
+    kani::assume(all_ascii(&hay));
+    let (mut cfg, kind) = base_config(K);
+    cfg.ignore_case = true;
+    cfg.normalize = kani::any();
+    kani::assume(needle_normalized_ascii(&needle, &cfg));
+    let mut ok = [false; H];
+    let mut i = 0;
+    while i + N <= H {
+        let mut all = true;
+        let mut k = 0;
+        while k < PL {
+            if AsciiChar(hay[i + k]).normalize(&cfg).0 != needle[k] {
+                all = false;
+            }
+            k += 1;
+        }
+        ok[i] = all;
+        i += 1;
+    }
+    let mut m = small_matcher(cfg.clone(), 8);
+    let (s, p) = m.substring_match_ascii_with_prefilter(&hay, &needle, PL, Cands::<H> { ok, pos: 0 });
+    let h = ascii(&hay);
+    let n = ascii(&needle);
+    let best = spec_best_occurrence(h, n, &cfg, kind);
+    assert!((s != 0) == best.is_some(), "a non-zero score is reported exactly when the needle occurs contiguously in the folded haystack");
+    if let Some(b) = best {
+        assert!(p == b, "reports the leftmost occurrence whose first character earns the highest bonus");
+        assert!(s as u32 == spec_score(h, &cfg, kind, &[b as u32]), "score of the first character == 16 + 2*bonus at the reported position");
+    }
+    kani::cover!(best.is_some() && best != Some(0));
+    std::mem::forget(m);
+}
